@@ -13,6 +13,28 @@ RULE = ("TLC explores every behaviour of the PushRuleset state machine for one r
         "Trace_C13 step by step.")
 
 
+def apalache_inductive():
+    """Init => IndInv and IndInv /\\ Next => IndInv' with apalache-mc; a timeout is reported as not run (no verdict)."""
+    import subprocess
+    d = os.path.join(vlib.MC, "C13", "apalache")
+    out = os.path.join(vlib.workdir("C13"), "apalache")
+    res = {}
+    for name, args in (("base", ["--init=Init", "--length=0"]), ("step", ["--init=IndInit", "--length=1"])):
+        cmd = ["apalache-mc", "check", "--out-dir=" + out, "--cinit=ConstInit", "--inv=IndInv"] + args + ["PushRulesetIndApa.tla"]
+        try:
+            p = subprocess.run(cmd, cwd=d, stdout=subprocess.PIPE, stderr=subprocess.STDOUT, text=True, timeout=1500)
+        except (subprocess.TimeoutExpired, FileNotFoundError) as e:
+            res[name] = "not run (%s)" % type(e).__name__
+            continue
+        if "EXITCODE: OK" in p.stdout:
+            res[name] = "proved"
+        elif "EXITCODE: ERROR (12)" in p.stdout:
+            raise vlib.ToolError("Apalache found a counterexample to the inductive invariant of PushRulesetInd (%s): see %s" % (name, out))
+        else:
+            res[name] = "not run (%s)" % p.stdout.strip().split("\n")[-1][:80]
+    return res
+
+
 def run(rep, tier):
     thorough = tier == "thorough"
     wd = vlib.workdir("C13")
@@ -63,6 +85,14 @@ def run(rep, tier):
         rep.violation(cls, {"pre": prev, "record": r})
     rep.part("trace", records=len(recs), runs=runs, mismatches=len(bad))
     rep.sample({"trace_record": recs[min(7, len(recs) - 1)]})
+    # design level, beyond TLC's three ids: the invariants as an inductive invariant of the edit machine, decided by Apalache for
+    # rule lists of any content up to length 5 over 8 arbitrary ids (PushRulesetInd), tied to PushRuleset by a TLC equivalence check
+    eq = vlib.run_tlc("C13", "EqCheck", name="eqcheck", workers=4, mcdir="C13/apalache")
+    if eq.violated or eq.rc != 0:
+        raise vlib.ToolError("PushRulesetInd and PushRuleset disagree: %s" % eq.lines[-15:])
+    rep.add_tlc(eq, "eqcheck")
+    if thorough or os.environ.get("VERIF_APALACHE"):
+        rep.part("apalache", **apalache_inductive())
     rep.cov["traces_validated_against_impl"] = summary["executed"] + runs
     rep.cov["evaluations"] = summary["executed"] + len(recs)
     rep.cov["distinct_nontrivial"] = nontrivial
